@@ -58,7 +58,10 @@ class Ctx:
     # ---- inputs
     def leaf(self, name, shape, **kw):
         if getattr(self, "grad_leaves", False) and kw.get("kind", "real") == "real" and "requires_grad" not in kw:
-            kw["requires_grad"] = True
+            # grad_subset: which of the operator's parameters are trainable ("all", or every other one starting at 0 / 1)
+            k = self._grad_k = getattr(self, "_grad_k", -1) + 1
+            sub = getattr(self, "grad_subset", None) or "all"
+            kw["requires_grad"] = {"all": True, "skip_even": k % 2 == 1, "skip_odd": k % 2 == 0, "skip_first": k != 0}[sub]
         if self.symbolic:
             return self.eng.leaf(name, shape, **kw)
         t = replay_leaf(self.model, name, shape, **kw)
@@ -299,7 +302,11 @@ def run_path(harness, params, prefix, witness, seed, engine_opts=None, path_budg
         try:
             with timebox(path_budget_s, PathAbort(f"witness path exceeded the trace budget of {path_budget_s}s")):
                 with PyLevelGuard(eng), eng:
-                    harness(ctx)
+                    try:
+                        harness(ctx)
+                    except RuntimeError as e:
+                        eng.resurface(e)
+                        raise
         except PathAbort as e:
             res.status, res.reason = "abort", e.reason
         except UnsupportedOp as e:
